@@ -63,8 +63,12 @@ func (d *Dumper) TypeLit(tpe typesutil.Type) string {
 
 			b.WriteString(d.TypeLit(f.Type()))
 
-			if tag := f.Tag(); tag != "" {
-				_, _ = fmt.Fprintf(b, " `%s`", tag)
+			if tag := string(f.Tag()); tag != "" {
+				if strconv.CanBackquote(tag) {
+					_, _ = fmt.Fprintf(b, " `%s`", tag)
+				} else {
+					_, _ = fmt.Fprintf(b, " %s", strconv.Quote(tag))
+				}
 			}
 
 			b.WriteString("\n")
